@@ -24,14 +24,15 @@ theorem take_length_take (X : Bytes) (k : Nat) : X.take (X.take k).length = X.ta
 
 /-! ### the inner loop reads exactly the block (or up to EOF) -/
 
-theorem inner_spec (A : HashAlg) (e : Env) (hp : e.Progress) (blocklen off0 : Nat)
+theorem inner_spec (A : HashAlg) (e : Env) (hp : e.Progress) (hre : ∀ off n, e.readErr off n = none)
+    (blocklen off0 : Nat)
     (absorbed : A.σ → Bytes) (hupd : ∀ h d, absorbed (A.update h d) = absorbed h ++ d) :
     ∀ (fuel count : Nat) (h : A.σ), count ≤ blocklen → blocklen - count < fuel →
       count ≤ (e.content.drop off0).length →
       absorbed h = (e.content.drop off0).take count →
       ∃ h', inner A e blocklen fuel count (off0 + count) h
-          = some (((e.content.drop off0).take blocklen).length,
-                  off0 + ((e.content.drop off0).take blocklen).length, h') ∧
+          = some (.ok (((e.content.drop off0).take blocklen).length,
+                  off0 + ((e.content.drop off0).take blocklen).length, h')) ∧
         absorbed h' = (e.content.drop off0).take blocklen := by
   intro fuel
   induction fuel with
@@ -41,7 +42,7 @@ theorem inner_spec (A : HashAlg) (e : Env) (hp : e.Progress) (blocklen off0 : Na
     generalize hD : e.content.drop off0 = D at *
     unfold inner
     by_cases hlt : count < blocklen
-    · simp only [hlt, if_true]
+    · simp only [hlt, if_true, hre]
       -- the read
       have hm : 0 < min (blocklen - count) CHUNK := by simp [CHUNK]; omega
       have hs := hp (off0 + count) (min (blocklen - count) CHUNK) hm
@@ -126,10 +127,10 @@ theorem blocksOf_cons (bs : Nat) (hbs : 1 ≤ bs) (d : Bytes) (hd : d ≠ []) :
 /-! ### the outer loop emits the hash of every block of the remaining range -/
 
 theorem outer_spec (A : HashAlg) (H : Bytes → Bytes) (hl : HashLaws A H) (e : Env) (hp : e.Progress)
-    (endpos bs : Nat) (hbs : 1 ≤ bs) :
+    (hre : ∀ off n, e.readErr off n = none) (endpos bs : Nat) (hbs : 1 ≤ bs) :
     ∀ (fuel offset : Nat) (out : Bytes), endpos - offset < fuel →
       outer A e endpos bs fuel offset out
-        = some (out ++ (blocksOf bs ((e.content.drop offset).take (endpos - offset))).flatMap H) := by
+        = some (.ok (out ++ (blocksOf bs ((e.content.drop offset).take (endpos - offset))).flatMap H)) := by
   obtain ⟨absorbed, hinit, hupd, hdig⟩ := hl.ex
   intro fuel
   induction fuel with
@@ -142,7 +143,7 @@ theorem outer_spec (A : HashAlg) (H : Bytes → Bytes) (hl : HashLaws A H) (e : 
       generalize hD : e.content.drop offset = D
       generalize hbl : min bs (endpos - offset) = blocklen
       have hbl1 : 1 ≤ blocklen := by omega
-      obtain ⟨h', hin, habs⟩ := inner_spec A e hp blocklen offset absorbed hupd (blocklen + 1) 0 A.init
+      obtain ⟨h', hin, habs⟩ := inner_spec A e hp hre blocklen offset absorbed hupd (blocklen + 1) 0 A.init
         (by omega) (by omega) (by omega) (by simp [hinit])
       rw [hD] at hin habs
       simp only [Nat.add_zero] at hin
@@ -200,5 +201,85 @@ theorem outer_spec (A : HashAlg) (H : Bytes → Bytes) (hl : HashLaws A H) (e : 
     · simp only [hlt, if_false]
       have : endpos - offset = 0 := by omega
       rw [this]; simp [blocksOf_nil]
+
+/-! ### termination in general (failing reads included) -/
+
+theorem inner_total (A : HashAlg) (e : Env) (blocklen : Nat) :
+    ∀ (fuel count offset : Nat) (h : A.σ), blocklen - count < fuel →
+      inner A e blocklen fuel count offset h ≠ none := by
+  intro fuel
+  induction fuel with
+  | zero => intro count offset h hf; omega
+  | succ fuel ih =>
+    intro count offset h hf
+    unfold inner
+    by_cases hlt : count < blocklen
+    · simp only [hlt, if_true]
+      cases hr : e.readErr offset (min (blocklen - count) CHUNK) with
+      | some code => simp
+      | none =>
+        simp only
+        by_cases hnil : e.read offset (min (blocklen - count) CHUNK) = []
+        · simp [hnil]
+        · simp only [hnil, if_false]
+          have hlen : 0 < (e.read offset (min (blocklen - count) CHUNK)).length := List.length_pos_iff.mpr hnil
+          exact ih _ _ _ (by omega)
+    · simp [hlt]
+
+/-- the offset moves with the count -/
+theorem inner_offset (A : HashAlg) (e : Env) (blocklen : Nat) :
+    ∀ (fuel count offset : Nat) (h : A.σ) (c' o' : Nat) (h' : A.σ),
+      inner A e blocklen fuel count offset h = some (.ok (c', o', h')) → o' + count = offset + c' := by
+  intro fuel
+  induction fuel with
+  | zero => intro count offset h c' o' h' hi; simp [inner] at hi
+  | succ fuel ih =>
+    intro count offset h c' o' h' hi
+    unfold inner at hi
+    by_cases hlt : count < blocklen
+    · simp only [hlt, if_true] at hi
+      cases hr : e.readErr offset (min (blocklen - count) CHUNK) with
+      | some code => simp [hr] at hi
+      | none =>
+        simp only [hr] at hi
+        by_cases hnil : e.read offset (min (blocklen - count) CHUNK) = []
+        · simp only [hnil, if_true, Option.some.injEq, Except.ok.injEq, Prod.mk.injEq] at hi
+          omega
+        · simp only [hnil, if_false] at hi
+          have := ih _ _ _ _ _ _ hi
+          omega
+    · simp only [hlt, if_false, Option.some.injEq, Except.ok.injEq, Prod.mk.injEq] at hi
+      omega
+
+theorem outer_total (A : HashAlg) (e : Env) (endpos bs : Nat) (hbs : 1 ≤ bs) :
+    ∀ (fuel offset : Nat) (out : Bytes), endpos - offset < fuel →
+      outer A e endpos bs fuel offset out ≠ none := by
+  intro fuel
+  induction fuel with
+  | zero => intro offset out hf; omega
+  | succ fuel ih =>
+    intro offset out hf
+    unfold outer
+    by_cases hlt : offset < endpos
+    · simp only [hlt, if_true]
+      have hin := inner_total A e (min bs (endpos - offset)) (min bs (endpos - offset) + 1) 0 offset A.init
+        (by omega)
+      cases hi : inner A e (min bs (endpos - offset)) (min bs (endpos - offset) + 1) 0 offset A.init with
+      | none => exact absurd hi hin
+      | some r =>
+        cases r with
+        | error code => simp
+        | ok t =>
+          obtain ⟨count, offset', h'⟩ := t
+          simp only
+          by_cases hc0 : count = 0
+          · simp [hc0]
+          · simp only [hc0, if_false]
+            by_cases hsh : count < min bs (endpos - offset)
+            · simp [hsh]
+            · simp only [hsh, if_false]
+              have hoff := inner_offset A e _ _ _ _ _ _ _ _ hi
+              exact ih offset' _ (by omega)
+    · simp [hlt]
 
 end PV.CheckFile
